@@ -317,3 +317,6 @@ func TestC15Exhaustive(t *testing.T) {
 	t.Logf("exhaustive: %d program pairs, %d complete schedules, %d with overlapping calls", len(progs)*len(progs), schedules, overlappedN)
 	_ = os.Getenv
 }
+
+// replay files written by the enumeration carry its test name
+func TestC15ExhaustiveReplay(t *testing.T) { vt.Replay(t, prop, run) }
